@@ -56,7 +56,7 @@ def rule_R1_evaluated(ctx, prj) -> bool:
         # the third construction site: an entry taken over from the cached report of an earlier scan
         from ..cache_eval import cached_scan
         out, _, _, _ = cached_scan(prj)
-        sf = prj.func(f"{SC}:_scan_file")
+        sf = prj.maybe_func(f"{SC}:_scan_file") or sp
         badc = {k: v for k, v in out.items() if v[0] != sum(v[1])}
         if not any(v[1] == [55, 44] for v in out.values()):
             raise Unknown("the scan with a cached report reuses no entry")
